@@ -17,6 +17,8 @@ def semAtom : Sexp → Option SemType
   | .list [.atom "s", .str s] => some { never with str := .some ⟨true, [s]⟩ }
   | .list [.atom "n", .atom n] => some { never with num := .some ⟨true, [n]⟩ }
   | .list [.atom "b", .atom b] => some { never with bool := .some (b == "true") }
+  | .list [.atom "o", k] => do some (mappingFromIdx (← k.natOf))
+  | .list [.atom "l", k] => do some (listFromIdx (← k.natOf))
   | _ => none
 
 def showLit (name : String) : Sem.Sub LitSet → Sexp
@@ -26,10 +28,17 @@ def showLit (name : String) : Sem.Sub LitSet → Sexp
 
 def showFlag (name : String) (b : Bool) : Sexp := .list [.atom name, .atom (if b then "all" else "none")]
 
-def showBddTag (name : String) : Sem.Sub Bdd → Sexp
+/-- a structural tag as `all` / `none` / the truth table of its diagram over the `natoms` atoms of the tag (a diagram that
+denotes everything or nothing prints like the whole / absent tag) -/
+def showBddTag (name : String) (kind natoms : Nat) : Sem.Sub Bdd → Sexp
   | .none => .list [.atom name, .atom "none"]
   | .all => .list [.atom name, .atom "all"]
-  | .some _ => .list [.atom name, .atom "some"]
+  | .some b =>
+    let table := (List.range (2 ^ natoms)).map fun m =>
+      Bdd.eval (fun a => a.kind == kind && (m >>> a.idx) % 2 == 1) b
+    if table.all id then .list [.atom name, .atom "all"]
+    else if table.all (!·) then .list [.atom name, .atom "none"]
+    else .list [.atom name, .list [.atom "tt", .str (String.ofList (table.map fun x => if x then '1' else '0'))]]
 
 def showSem (t : SemType) : Sexp :=
   .list [.atom "st",
@@ -38,7 +47,7 @@ def showSem (t : SemType) : Sexp :=
       | .all => .list [.atom "bool", .atom "all"]
       | .some b => .list [.atom "bool", .atom "only", .list [.str (if b then "true" else "false")]]),
     showLit "num" t.num, showLit "str" t.str, showLit "vu" t.vu, showFlag "null" t.null, showFlag "opt" t.opt,
-    showBddTag "mapping" t.mapping, showBddTag "list" t.list, showFlag "other" t.other]
+    showBddTag "mapping" mappingKind 3 t.mapping, showBddTag "list" listKind 2 t.list, showFlag "other" t.other]
 
 def semStep (atoms : Array SemType) (hist : Array SemType) : Sexp → Option SemType
   | .list [.atom "A", k] => do atoms[← k.natOf]?
